@@ -391,7 +391,8 @@ Proof.
     assert (G : exists q', nth_error (lupd (boxes s) m0 rest) m = Some q' /\
                 (q' = q \/ (exists g0, q = g0 :: q') \/ (exists g0, q' = q ++ [g0]))).
     { destruct (Nat.eq_dec m0 m) as [->|NE].
-      - rewrite nth_error_lupd_eq by auto. rewrite EB in Hq. injection Hq as <-. eauto.
+      - rewrite nth_error_lupd_eq by auto. rewrite EB in Hq. injection Hq as <-.
+        exists rest. split; [reflexivity|]. right. left. exists g. reflexivity.
       - rewrite nth_error_lupd_ne by auto. eauto. }
     destruct (mkd g) as [key|r slot rep radd].
     + destruct (key_cancelled s key); injection H as <-; cbn; exact G.
@@ -428,7 +429,8 @@ Proof.
                    (q' = q \/ (exists g0, q = g0 :: q') \/ (exists g0, q' = q ++ [g0]))).
       { intros s0 E1 X. destruct (Nat.ltb _ _); [|discriminate]. injection X as <-. cbn. rewrite E1.
         destruct (Nat.eq_dec m0 m) as [->|NE].
-        - rewrite nth_error_lupd_eq by auto. rewrite EB in Hq. injection Hq as <-. eauto.
+        - rewrite nth_error_lupd_eq by auto. rewrite EB in Hq. injection Hq as <-.
+          exists (q0 ++ [g]). split; [reflexivity|]. right. right. exists g. reflexivity.
         - rewrite nth_error_lupd_ne by auto. eauto. }
       destruct (mplace sp).
       * eapply G; [|exact H]; reflexivity.
